@@ -14,6 +14,8 @@
 EXTENDS Braid, Json
 
 CONSTANTS Reps,         \* replica ids, e.g. {1, 2}; replica 1 creates the graph
+          Authors,      \* replicas that perform actions
+          Receivers,    \* replicas that receive sync deliveries
           Txns,         \* transaction slots per replica, e.g. {1} or {1, 2}
           MaxCmds,      \* bound on Len(dag) (universe incl. init and merges)
           MaxSteps,     \* bound on Len(hist); behaviours are emitted when reached
@@ -78,7 +80,7 @@ RankChoice == IF AllRanks THEN FreeRanks
 --------------------------------------------------------------------------------
 (* action(): collapse the head set pairwise (sorted by id, fold through a queue), then publish *)
 ActBegin(r) ==
-  /\ Steps /\ rep[r].exists /\ Idle(r) /\ Len(dag) < MaxCmds
+  /\ r \in Authors /\ Steps /\ rep[r].exists /\ Idle(r) /\ Len(dag) < MaxCmds
   /\ rep' = [rep EXCEPT ![r].q = SortedById(rep[r].heads)]
   /\ noise' = noise
   /\ UNCHANGED <<dag, tx, hist, npoison, nbad>>
@@ -169,7 +171,7 @@ Candidates(r, t) ==
   IN {c \in others : (AllowDup \/ c \notin known) /\ (AllowOrphan \/ ParSet(c) \subseteq known \cup others)}
 
 Deliver(r, t) ==
-  /\ Steps /\ Idle(r) /\ rep[r].exists
+  /\ r \in Receivers /\ Steps /\ Idle(r) /\ rep[r].exists
   /\ \E batch \in Batches(Candidates(r, t)) :
        LET a == AddAll(Touch(r, t), batch, 1, 0, rep[r].committed) IN
        /\ tx' = [tx EXCEPT ![r][t] = a.x]
@@ -179,7 +181,7 @@ Deliver(r, t) ==
 
 (* first contact: the graph does not exist locally; the first command must be its init *)
 DeliverInit(r, t) ==
-  /\ Steps /\ ~rep[r].exists
+  /\ r \in Receivers /\ Steps /\ ~rep[r].exists
   /\ \E batch \in Batches(UNION {rep[p].committed : p \in Reps \ {r}}) :
        IF batch[1] = 1
        THEN LET x0 == [open |-> TRUE, rs |-> 0, base |-> {1}, acc |-> {}]
@@ -195,7 +197,7 @@ DeliverInit(r, t) ==
 (* a command the policy rejects at origin, child of a command the transaction has; then
    optionally a command naming the rejected one as parent (C06) *)
 DeliverPoison(r, t) ==
-  /\ AllowPoison /\ Steps /\ Idle(r) /\ rep[r].exists /\ npoison < 2
+  /\ r \in Receivers /\ AllowPoison /\ Steps /\ Idle(r) /\ rep[r].exists /\ npoison < 2
   /\ \E p \in Touch(r, t).base \cup Touch(r, t).acc, orphan \in BOOLEAN :
        /\ ~IsMerge(p) \/ TRUE
        /\ tx' = [tx EXCEPT ![r][t] = Touch(r, t)]
@@ -249,7 +251,7 @@ CommitNoop(r, t) ==
 
 (* sync everything p has into r in one transaction and commit (makes converged pairs frequent) *)
 SyncAll(r, p) ==
-  /\ Steps /\ Idle(r) /\ Idle(p) /\ r # p /\ rep[p].exists
+  /\ r \in Receivers /\ Steps /\ Idle(r) /\ Idle(p) /\ r # p /\ rep[p].exists
   /\ \A t \in Txns : ~tx[r][t].open
   /\ ~(rep[p].committed \subseteq rep[r].committed)
   /\ LET all == rep[r].committed \cup rep[p].committed
